@@ -1466,8 +1466,8 @@ class CSSMatch(_DocumentNav):
                 # Verify tag matches
                 if not self.match_tag(el, selector.tag):
                     continue
-                # Verify tag is defined
-                if selector.flags & ct.SEL_DEFINED and not self.match_defined(el):
+                # Verify tag is defined (HTML only)
+                if selector.flags & ct.SEL_DEFINED and not (self.is_html and self.match_defined(el)):
                     continue
                 # Verify element is root
                 if selector.flags & ct.SEL_ROOT and not self.match_root(el):
@@ -1511,8 +1511,8 @@ class CSSMatch(_DocumentNav):
                 # also not set.
                 if selector.flags & ct.SEL_INDETERMINATE and not self.match_indeterminate(el):
                     continue
-                # Validate element directionality
-                if selector.flags & DIR_FLAGS and not self.match_dir(el, selector.flags & DIR_FLAGS):
+                # Validate element directionality (HTML only)
+                if selector.flags & DIR_FLAGS and not (self.is_html and self.match_dir(el, selector.flags & DIR_FLAGS)):
                     continue
                 # Validate that the tag contains the specified text.
                 if selector.contains and not self.match_contains(el, selector.contains):
